@@ -175,7 +175,7 @@ def run_c12(cfg: GCfg, c: Ctx) -> Any:
     # one naming feature per program: alias form (reference / id / tag) x tag style - 0 tuples of tags; 1 as 0 but the
     # last node is also tagged with the id of the first one; 2 single-string tags, the last node's tag contains the id
     # of the first node and the tag of the second as substrings - or an indexed dependency (with reference aliases)
-    feats = [("ref", 0, False), ("id", 0, False), ("tag", 0, False), ("id", 1, False), ("id", 2, False), ("tag", 2, False)]
+    feats = [("ref", 0, False), ("id", 0, False), ("tag", 0, False), ("id", 1, False), ("ref", 1, False), ("id", 2, False), ("tag", 2, False)]
     if cfg.indexed:
         feats.append(("ref", 0, True))
     form, style, want_idx = feats[c.choose(len(feats), "naming")]
